@@ -281,6 +281,26 @@ pub fn eval_const_item<'tcx>(tcx: TyCtxt<'tcx>, did: rustc_hir::def_id::DefId) -
     }
 }
 
+/// Raw bytes of a (pointer-free, small) static's initializer.
+pub fn eval_static_item<'tcx>(tcx: TyCtxt<'tcx>, did: rustc_hir::def_id::DefId) -> Option<String> {
+    let r = std::panic::catch_unwind(std::panic::AssertUnwindSafe(|| tcx.eval_static_initializer(did)));
+    match r {
+        Ok(Ok(alloc)) => {
+            let a = alloc.inner();
+            if a.len() > 4096 || !a.provenance().ptrs().is_empty() {
+                return None;
+            }
+            let b = a.inspect_with_uninit_and_ptr_outside_interpreter(0..a.len());
+            let mut h = String::with_capacity(b.len() * 2);
+            for x in b {
+                h.push_str(&format!("{:02x}", x));
+            }
+            Some(format!("\"raw\":\"{}\"", h))
+        }
+        _ => None,
+    }
+}
+
 pub fn emit_items<'tcx>(tcx: TyCtxt<'tcx>, out: &mut String) {
     // match / let facts per body owner
     let owners: Vec<LocalDefId> = tcx.hir_body_owners().collect();
@@ -311,7 +331,7 @@ pub fn emit_items<'tcx>(tcx: TyCtxt<'tcx>, out: &mut String) {
         let did = ldid.to_def_id();
         let ty = tcx.type_of(did).instantiate_identity().skip_norm_wip();
         let (file, line) = loc(tcx, tcx.def_span(did));
-        let v = if matches!(kind, DefKind::Static { .. }) { None } else { eval_const_item(tcx, did) };
+        let v = if matches!(kind, DefKind::Static { .. }) { eval_static_item(tcx, did) } else { eval_const_item(tcx, did) };
         out.push_str(&format!(
             "{{\"k\":\"const\",\"key\":{},\"ty\":{},\"file\":{},\"line\":{}{}}}\n",
             json::s(&key_of(tcx, did)),
